@@ -462,3 +462,32 @@ def generic_replay(prop, path):
     hit = [k for k, _, _ in rep.violations if k == key] + [k for k, _ in rep.known_hit if k == key]
     print("REPRODUCED (the quick check reports %s again)" % key if hit else "not reproduced on the current tree")
     return 1 if hit else 0
+
+
+def cbmc_sweep(tag, files_for_hash, jobs, make_cmd, prefix, tier_tag):
+    """Run CBMC once per job (in parallel), cached by the content of `files_for_hash`.
+    make_cmd(job) -> argv.  Returns [(job, verdict, failed assertion texts, trace excerpt)] with
+    verdict in ok / fail; raises ToolError if CBMC could not decide a job."""
+    import hashlib
+    from concurrent.futures import ThreadPoolExecutor
+    h = hashlib.sha256(b"".join(open(x, "rb").read() for x in files_for_hash)).hexdigest()[:16]
+    cache_path = os.path.join(BUILD, "cbmc_%s_%s_%s.json" % (tag, h, tier_tag))
+    if os.path.exists(cache_path):
+        return json.load(open(cache_path))
+
+    def one(job):
+        r = subprocess.run(make_cmd(job) + ["--trace"], capture_output=True, text=True, timeout=1800)
+        out = r.stdout
+        if "VERIFICATION SUCCESSFUL" in out:
+            return [job, "ok", [], ""]
+        failed = sorted(set(re.findall(r"\] line \d+ (%s: [^:]+): FAILURE" % prefix, out)))
+        if not failed:
+            return [job, "tool-error", [], out[-600:] + r.stderr[-300:]]
+        return [job, "fail", failed, out[-6000:]]
+    with ThreadPoolExecutor(max_workers=14) as ex:
+        results = list(ex.map(one, jobs))
+    for job, verdict, failed, tr in results:
+        if verdict == "tool-error":
+            raise ToolError("cbmc could not decide %s %s: %s" % (tag, job, tr))
+    json.dump(results, open(cache_path, "w"))
+    return results
